@@ -12,11 +12,11 @@ class PathDumper(FileDumper):
         PathDumper.__makedirs(self.out_path)
 
     def write_file_to_output(self, filename, path):
-        is_descriptor = path == 'datapackage.json'
+        # Avoid rewriting existing data files whose path carries their hash (which needs the
+        # resource hash to be computed); the descriptor has a fixed name and is always rewritten
+        hashed_path = self.add_filehash_to_path and self.resource_hash and path != 'datapackage.json'
         path = os.path.join(self.out_path, path)
-        # Avoid rewriting existing data files (their path carries their hash);
-        # the descriptor has a fixed name and must always be rewritten
-        if self.add_filehash_to_path and not is_descriptor and os.path.exists(path):
+        if hashed_path and os.path.exists(path):
             return
         path_part = os.path.dirname(path)
         PathDumper.__makedirs(path_part)
